@@ -104,6 +104,7 @@ def mech(kind, w, design=None):
     return "yosys-struct-wire-whole-and-field-forms-not-linked"
   if kind == "output-differs-from-pymtl-simulation":
     if w.get("component_list_with_different_classes"): return "yosys-component-list-elements-instantiated-with-class-of-element-0"
+    if two_loopvars_compared(src): return "yosys-loop-variables-are-signed-integers"
     if c03_sv.literal_branch_ifexp_meets_int_semantics(src): return "ifexp-with-literal-branch-evaluates-to-python-int-in-simulation"
     if c03_sv.loopvar_modulo_index(src): return "loop-variable-arithmetic-in-index-evaluated-at-index-width"
     if c03_sv.const_only_nonring_subexpr(src): return "const-subexpression-narrowed-before-nonring-operator"
@@ -111,7 +112,25 @@ def mech(kind, w, design=None):
   return None
 
 
+def two_loopvars_compared(src):
+  """the design compares two loop variables with each other ( if j < i ) - the shape of F-Y8"""
+  lv = set(re.findall(r"for (\w+) in range\(", src))
+  return any(re.search(r"\b%s\s*(<=|>=|<|>)\s*%s\b" % (re.escape(a), re.escape(b)), src) for a in lv for b in lv if a != b)
+
+
 PROBES = dict(c03_sv.PROBES)
+PROBES["F-Y8"] = ("""from pymtl3 import *
+class Top(Component):
+  def construct(s):
+    s.in_ = InPort(4); s.out = OutPort(4)
+    @update
+    def up():
+      s.out @= 0
+      for i in range(4):
+        for j in range(4):
+          if j < i:
+            s.out[i] @= s.out[i] | s.in_[j]
+""", "Top")
 PROBES["F-Y1"] = ("""from pymtl3 import *
 @bitstruct
 class P:
